@@ -30,27 +30,81 @@ const (
 	// the processor mutex while it calls Export), see the package comment.
 	lSimpleRS // NewSimpleProcessor(exporter whose Shutdown logs)
 	lBatchRS  // NewBatchProcessor(exporter whose Shutdown logs), export interval 1h
+	// Degenerate stock processors: the zero values of the exported processor
+	// types (no exporter, no queue).
+	lSimpleZero // new(sdklog.SimpleProcessor)
+	lBatchZero  // new(sdklog.BatchProcessor)
+	// NewBatchProcessor(recording exporter, LProg.BOpt...): generated sizes,
+	// interval and timeout (tiny, zero, negative, unset).
+	lBatchOpt
+	// NewBatchProcessor(exporter whose Export, for a batch that carries a
+	// record of the program, and whose Shutdown emit a record "x" through a
+	// logger of the same provider; LProg.BOpt...).
+	lBatchRX
+	// A recording processor whose Shutdown calls back into the provider that
+	// is shutting it down (LProg.RecX).
+	lRecRe
 	lKinds
 )
 
-var lprocNames = []string{"rec", "rec_err", "simple(exp)", "simple(nil)", "batch(exp)", "batch(nil)", "simple(re-entrant exp)", "batch(re-entrant exp)"}
+var lprocNames = []string{"rec", "rec_err", "simple(exp)", "simple(nil)", "batch(exp)", "batch(nil)", "simple(re-entrant exp)", "batch(re-entrant exp)",
+	"zero SimpleProcessor", "zero BatchProcessor", "batch(exp, options)", "batch(exp re-entrant in Export, options)", "rec_reentrant"}
+
+// LBatchOpt is the option list of the lBatchOpt / lBatchRX processors: bit i
+// of Set says that option i is given (0 WithMaxQueueSize(Q), 1
+// WithExportMaxBatchSize(B), 2 WithExportBufferSize(Buf), 3
+// WithExportInterval(IvMs ms), 4 WithExportTimeout(ToMs ms)).
+type LBatchOpt struct {
+	Set  int `json:"set,omitempty"`
+	Q    int `json:"q,omitempty"`
+	B    int `json:"b,omitempty"`
+	Buf  int `json:"buf,omitempty"`
+	IvMs int `json:"iv_ms,omitempty"`
+	ToMs int `json:"to_ms,omitempty"`
+}
+
+func (o LBatchOpt) options() []sdklog.BatchProcessorOption {
+	var out []sdklog.BatchProcessorOption
+	if o.Set&1 != 0 {
+		out = append(out, sdklog.WithMaxQueueSize(o.Q))
+	}
+	if o.Set&2 != 0 {
+		out = append(out, sdklog.WithExportMaxBatchSize(o.B))
+	}
+	if o.Set&4 != 0 {
+		out = append(out, sdklog.WithExportBufferSize(o.Buf))
+	}
+	if o.Set&8 != 0 {
+		out = append(out, sdklog.WithExportInterval(time.Duration(o.IvMs)*time.Millisecond))
+	}
+	if o.Set&16 != 0 {
+		out = append(out, sdklog.WithExportTimeout(time.Duration(o.ToMs)*time.Millisecond))
+	}
+	return out
+}
 
 // LOp is one step of a log program.
 type LOp struct {
 	K string `json:"k"`           // logger emit flush shutdown
 	X int    `json:"x,omitempty"` // logger: slot; emit: record id
 	L int    `json:"l,omitempty"` // emit: logger slot of the goroutine (an unfilled slot calls Logger() now), -1 = the logger obtained at construction
-	C int    `json:"c,omitempty"` // flush/shutdown: 0 live context, -1 already cancelled
+	C int    `json:"c,omitempty"` // flush/shutdown/emit: context of the call, 0 live, -1 already cancelled, -2 deadline already expired
 	P int    `json:"p,omitempty"`
 }
 
 // LProg is a log program.
 type LProg struct {
-	Procs []int   `json:"procs"`
-	Gs    [][]LOp `json:"gs"`
-	Post  []LOp   `json:"post,omitempty"`
-	Slow  int     `json:"slow,omitempty"`
-	Runs  int     `json:"runs,omitempty"`
+	Procs []int     `json:"procs"`
+	Gs    [][]LOp   `json:"gs"`
+	Post  []LOp     `json:"post,omitempty"`
+	Slow  int       `json:"slow,omitempty"`
+	Runs  int       `json:"runs,omitempty"`
+	BOpt  LBatchOpt `json:"bopt"`
+	// RecX: what the Shutdown of a rec_reentrant processor does with the
+	// provider (and the context it was given): bit 0 Shutdown, bit 1
+	// Logger("re").Emit of a record "x", bit 2 ForceFlush, bit 3 Emit of a
+	// record "x" through a logger obtained right after construction.
+	RecX int `json:"rec_x,omitempty"`
 }
 
 // ---------------------------------------------------------------------
@@ -60,6 +114,7 @@ type recLogProc struct {
 	clock *vk.Clock
 	fail  bool
 	slow  int
+	re    func(context.Context) // re-entrant processor: called inside Shutdown
 	mu    sync.Mutex
 	evs   []tev // Kind 'o' OnEmit (Span = record id), 'f', 'd'
 }
@@ -88,9 +143,12 @@ func (p *recLogProc) ForceFlush(context.Context) error {
 	return nil
 }
 
-func (p *recLogProc) Shutdown(context.Context) error {
+func (p *recLogProc) Shutdown(ctx context.Context) error {
 	i := p.add('d', -1)
 	vk.Perturb(p.slow)
+	if p.re != nil {
+		p.re(ctx)
+	}
 	p.mu.Lock()
 	p.evs[i].Exit = p.clock.Tick()
 	p.mu.Unlock()
@@ -113,6 +171,16 @@ type recLogExp struct {
 	shutdowns []ival
 	internal  int        // "x" records received
 	logger    log.Logger // re-entrant exporters: set before the provider is used
+	reExport  bool       // Export, too, emits a record "x" (never for a batch of "x" records only)
+}
+
+func (e *recLogExp) logSelf() {
+	if e.logger != nil {
+		var r log.Record
+		r.SetBody(log.StringValue("x"))
+		r.SetSeverity(log.SeverityInfo)
+		e.logger.Emit(context.Background(), r)
+	}
 }
 
 func (e *recLogExp) Export(_ context.Context, records []sdklog.Record) error {
@@ -132,17 +200,15 @@ func (e *recLogExp) Export(_ context.Context, records []sdklog.Record) error {
 		e.exports = append(e.exports, ev)
 	}
 	e.mu.Unlock()
+	if e.reExport && len(ev.Spans) > 0 {
+		e.logSelf()
+	}
 	return nil
 }
 func (e *recLogExp) ForceFlush(context.Context) error { return nil }
 func (e *recLogExp) Shutdown(context.Context) error {
 	enter := e.clock.Tick()
-	if e.logger != nil {
-		var r log.Record
-		r.SetBody(log.StringValue("x"))
-		r.SetSeverity(log.SeverityInfo)
-		e.logger.Emit(context.Background(), r)
-	}
+	e.logSelf()
 	e.mu.Lock()
 	e.shutdowns = append(e.shutdowns, ival{Enter: enter, Exit: e.clock.Tick()})
 	e.mu.Unlock()
@@ -206,7 +272,8 @@ func validL(p LProg) bool {
 			ok = false
 		}
 	})
-	return ok
+	return ok && p.RecX >= 0 && p.RecX <= 15 && p.BOpt.Set >= 0 && p.BOpt.Set <= 31 &&
+		p.BOpt.Q <= 4096 && p.BOpt.B <= 4096 && p.BOpt.Buf <= 64 && p.BOpt.IvMs <= 3600000 && (p.BOpt.ToMs <= 0 || p.BOpt.ToMs >= 30000)
 }
 
 func execLog(p LProg) (*lhist, func()) {
@@ -219,9 +286,18 @@ func execLog(p LProg) (*lhist, func()) {
 		lp := &lproc{kind: k}
 		var proc sdklog.Processor
 		switch k {
-		case lRec, lRecErr:
+		case lRec, lRecErr, lRecRe:
 			lp.rec = &recLogProc{clock: clock, fail: k == lRecErr, slow: p.Slow}
 			proc = lp.rec
+		case lSimpleZero:
+			proc = new(sdklog.SimpleProcessor)
+		case lBatchZero:
+			proc = new(sdklog.BatchProcessor)
+		case lBatchOpt, lBatchRX:
+			lp.exp = &recLogExp{clock: clock, reExport: k == lBatchRX}
+			bp := sdklog.NewBatchProcessor(lp.exp, p.BOpt.options()...)
+			proc = bp
+			cleanup = append(cleanup, func() { _ = bp.Shutdown(context.Background()) })
 		case lSimple, lSimpleRS:
 			lp.exp = &recLogExp{clock: clock}
 			proc = sdklog.NewSimpleProcessor(lp.exp)
@@ -243,8 +319,28 @@ func execLog(p LProg) (*lhist, func()) {
 	prov := sdklog.NewLoggerProvider(opts...)
 	base := prov.Logger("base")
 	for _, lp := range h.procs {
-		if lp.kind == lSimpleRS || lp.kind == lBatchRS {
+		if lp.kind == lSimpleRS || lp.kind == lBatchRS || lp.kind == lBatchRX {
 			lp.exp.logger = prov.Logger("exporter")
+		}
+		if lp.kind == lRecRe && p.RecX != 0 {
+			early := prov.Logger("processor")
+			lp.rec.re = func(ctx context.Context) {
+				var r log.Record
+				r.SetBody(log.StringValue("x"))
+				r.SetSeverity(log.SeverityInfo)
+				if p.RecX&1 != 0 {
+					_ = prov.Shutdown(ctx)
+				}
+				if p.RecX&2 != 0 {
+					prov.Logger("re").Emit(ctx, r)
+				}
+				if p.RecX&4 != 0 {
+					_ = prov.ForceFlush(ctx)
+				}
+				if p.RecX&8 != 0 {
+					early.Emit(ctx, r)
+				}
+			}
 		}
 	}
 	loggerNames := []string{"a", "b", "", "a"}
@@ -274,7 +370,7 @@ func execLog(p LProg) (*lhist, func()) {
 			var r log.Record
 			r.SetBody(log.StringValue(fmt.Sprintf("r%d", op.X)))
 			r.SetSeverity(log.SeverityInfo)
-			l.Emit(context.Background(), r)
+			l.Emit(ctx, r)
 		case "flush":
 			rec.Err = prov.ForceFlush(ctx)
 		case "shutdown":
@@ -391,6 +487,10 @@ func oracleLog(h *lhist) ([]vk.Violation, map[string]bool) {
 			if c.Start < firstIssue {
 				firstIssue = c.Start
 			}
+			cl["provider_shutdown_issued"] = true
+		}
+		if c.Done && c.K == "emit" && c.C != 0 {
+			cl["emit_with_done_context"] = true
 		}
 	}
 	for _, c := range calls {
@@ -522,8 +622,9 @@ func genRawLOp(conc bool) *rapid.Generator[LOp] {
 			op.X = rapid.IntRange(0, 3).Draw(t, "slot")
 		case "emit":
 			op.L = rapid.IntRange(-1, 3).Draw(t, "slot")
+			op.C = rapid.SampledFrom([]int{0, 0, 0, 0, -1, -2}).Draw(t, "ctx")
 		case "flush", "shutdown":
-			op.C = rapid.SampledFrom([]int{0, 0, -1}).Draw(t, "ctx")
+			op.C = rapid.SampledFrom([]int{0, 0, 0, 0, -1, -1, -2}).Draw(t, "ctx")
 		}
 		if conc {
 			op.P = rapid.IntRange(0, 3).Draw(t, "p")
@@ -546,6 +647,45 @@ func normaliseL(p *LProg) {
 		fix(p.Gs[g])
 	}
 	fix(p.Post)
+	hasOpt, hasRe := false, false
+	for _, k := range p.Procs {
+		hasOpt = hasOpt || k == lBatchOpt || k == lBatchRX
+		hasRe = hasRe || k == lRecRe
+	}
+	if !hasOpt {
+		p.BOpt = LBatchOpt{}
+	}
+	if !hasRe {
+		p.RecX = 0
+	}
+}
+
+// genBatchOpt draws the options of the lBatchOpt / lBatchRX processors: each
+// one unset, degenerate (zero, negative: the documented default applies) or tiny.
+func genBatchOpt(t *rapid.T) LBatchOpt {
+	o := LBatchOpt{Set: rapid.IntRange(0, 31).Draw(t, "bopt_set")}
+	sizes := []int{-1, 0, 1, 1, 2, 3, 8}
+	if o.Set&1 != 0 {
+		o.Q = rapid.SampledFrom(sizes).Draw(t, "q")
+	}
+	if o.Set&2 != 0 {
+		o.B = rapid.SampledFrom(sizes).Draw(t, "b")
+	}
+	if o.Set&4 != 0 {
+		o.Buf = rapid.SampledFrom([]int{-1, 0, 1, 2}).Draw(t, "buf")
+	}
+	if o.Set&8 != 0 {
+		o.IvMs = rapid.SampledFrom([]int{-1, 0, 1, 1, 3600000}).Draw(t, "iv")
+	}
+	if o.Set&16 != 0 {
+		o.ToMs = rapid.SampledFrom([]int{-1, 0, 30000}).Draw(t, "to")
+	}
+	return o
+}
+
+func genLogExtras(t *rapid.T, p *LProg) {
+	p.BOpt = genBatchOpt(t)
+	p.RecX = rapid.IntRange(1, 15).Draw(t, "rec_x")
 }
 
 func genProcs(t *rapid.T) []int {
@@ -557,6 +697,7 @@ func genProcs(t *rapid.T) []int {
 
 func genLogSeq(t *rapid.T) LProg {
 	p := LProg{Procs: genProcs(t)}
+	genLogExtras(t, &p)
 	p.Gs = [][]LOp{genChunked(t, genRawLOp(false), 12)}
 	normaliseL(&p)
 	return p
@@ -571,6 +712,21 @@ func logInfo(p LProg, cl map[string]bool) vk.Info {
 		info.Class("processor:" + lprocNames[k])
 	}
 	info.ClassIf(len(p.Procs) == 0, "no_processor")
+	for _, k := range p.Procs {
+		if k == lBatchOpt || k == lBatchRX {
+			o := p.BOpt
+			info.ClassIf(o.Set&1 != 0 && o.Q <= 0 || o.Set&2 != 0 && o.B <= 0 || o.Set&4 != 0 && o.Buf <= 0 || o.Set&8 != 0 && o.IvMs <= 0 || o.Set&16 != 0 && o.ToMs <= 0, "batch_option_zero_or_negative")
+			info.ClassIf(o.Set&1 != 0 && o.Q > 0 && o.Q <= 3, "batch_queue_1_to_3")
+			info.ClassIf(o.Set&2 != 0 && o.B > 0 && o.B <= 3, "batch_export_size_1_to_3")
+			info.ClassIf(o.Set&8 != 0 && o.IvMs == 1, "batch_interval_1ms")
+			info.ClassIf(o.Set == 0, "batch_no_option(defaults)")
+		}
+		if k == lRecRe {
+			for b, n := range []string{"Shutdown", "Logger+Emit", "ForceFlush", "Emit(old logger)"} {
+				info.ClassIf(cl["provider_shutdown_issued"] && p.RecX&(1<<b) != 0, "reentrant_processor:"+n)
+			}
+		}
+	}
 	info.Classes = dedup(info.Classes)
 	info.NonTrivial = len(p.Procs) > 0 && cl["provider_shut_down"] && cl["telemetry_after_shutdown"]
 	return info
@@ -592,7 +748,7 @@ func runLogSeq(p LProg) ([]vk.Violation, vk.Info) {
 func TestLogLifecycle(t *testing.T) {
 	vk.Run(t, vk.Spec[LProg]{
 		Property: "C15", Check: "log_lifecycle",
-		Rule: "generated op lists (1-48 ops: Logger / Emit through the logger obtained at construction, through loggers obtained earlier or right now / ForceFlush / Shutdown with live or already-cancelled contexts, repeated) on a LoggerProvider with 0-4 processors drawn from recording processors (one failing), SimpleProcessor and BatchProcessor around a recording exporter, around nil and around a re-entrant exporter whose Shutdown emits a record through the same provider; " +
+		Rule: "generated op lists (1-48 ops: Logger / Emit through the logger obtained at construction, through loggers obtained earlier or right now / ForceFlush / Shutdown with live or already-cancelled contexts, repeated) on a LoggerProvider with 0-4 processors drawn from recording processors (one failing), SimpleProcessor and BatchProcessor around a recording exporter, around nil and around a re-entrant exporter whose Shutdown emits a record through the same provider, the zero values of SimpleProcessor and BatchProcessor, BatchProcessors with generated options (queue / batch / buffer size, interval, timeout each unset, zero, negative or tiny; optionally with an exporter that emits from Export) and a recording processor whose Shutdown calls back into the provider (Shutdown / Logger+Emit / ForceFlush / Emit); contexts live, cancelled or past their deadline (also for Emit); " +
 			"non-trivial = at least one processor, a Shutdown with a live context returned nil and an Emit follows it; distinct = distinct case encodings",
 		Quick: 2000, Thorough: 25000,
 		Gen: genLogSeq, Run: runLogSeq,
